@@ -1758,6 +1758,27 @@ def f_reconnect_gives_up():
     return _script("C13_reconnect_gives_up.py")
 
 
+@finding("C13/retry-floor/new-fault-while-polling", "C13")
+def f_reconnect_floor_new_fault():
+    """the reconnect task polls every half second while the client is DISCONNECTED (b7bcb77): a fault reported while it was already polling was
+    followed by the next attempt at the next tick — 0.03 s after the fault — since no new task with its own wait is started while one is alive"""
+    return _script("C13_reconnect_floor_after_new_fault.py")
+
+
+@finding("C13/connected-without-receiver/reconnect-task-stops", "C13")
+def f_reconnect_stops_without_reader():
+    """link 1 is lost, the reconnect task starts; the application's own connect() (bounded by a timeout) is accepted but cancelled during a slow
+    CONNECTED callback, before the receive loop starts; the reconnect task saw CONNECTED and ended: frames on link 2 were never delivered"""
+    return _script("C13_reconnect_stops_without_reader.py")
+
+
+@finding("C14/link-open/failed-attempt", "C14")
+def f_failed_attempt_link_open():
+    """_connect_impl() opens a link and then fails (socket options, the serial adapter's configuration write): the retry replaced the writer, the
+    first link stayed open, also after close()"""
+    return _script("C14_failed_attempt_link_open.py")
+
+
 def run(keys=None):
     out = {}
     for k, (prop, fn) in FINDINGS.items():
